@@ -289,6 +289,50 @@ fn random_sparse(rng: &mut Rng, max_extra: usize) -> Pos {
             }
             continue;
         }
+        if family == 4 {
+            // pawn storms: pawns on their home rank next to enemy pawns that have crossed the middle, for both
+            // colours -- double steps, live and expired en-passant rights and their transpositions fill the tree
+            let wk = rng.below(64);
+            let mut bk = rng.below(64);
+            while bk == wk || ((bk % 8) as i32 - (wk % 8) as i32).abs() <= 1 && ((bk / 8) as i32 - (wk / 8) as i32).abs() <= 1 {
+                bk = rng.below(64);
+            }
+            b[wk] = 6;
+            b[bk] = 12;
+            for (home, far, me, opp) in [(1usize, 3usize, 1u8, 7u8), (6, 4, 7, 1)] {
+                let n = 1 + rng.below(3);
+                for _ in 0..n {
+                    let f = rng.below(8);
+                    if b[home * 8 + f] == 0 {
+                        b[home * 8 + f] = me;
+                        let g = if rng.chance(1, 2) { f + 1 } else { f.wrapping_sub(1) };
+                        if g < 8 && b[far * 8 + g] == 0 && rng.chance(3, 4) {
+                            b[far * 8 + g] = opp;
+                        }
+                    }
+                }
+            }
+            if rng.chance(1, 2) {
+                let s = rng.below(64);
+                if b[s] == 0 {
+                    b[s] = [2u8, 3, 4, 8, 9, 10][rng.below(6)];
+                }
+            }
+            let pos = Pos { b, turn: rng.below(2) as u8, rights: 0, ep: 0 };
+            let board = pos.setup();
+            let mut g = MoveGenerator::with_cache_capacity(16);
+            let other = board.turn().opposite();
+            if evaluate::player_is_in_check(&board, &mut g, other) {
+                continue;
+            }
+            let mut bb2 = board.clone();
+            let t = bb2.turn();
+            let n = g.generate_moves(&mut bb2, t).len();
+            if n == 0 || n > 30 {
+                continue;
+            }
+            return pos;
+        }
         let wk = rng.below(64);
         let mut bk = rng.below(64);
         while bk == wk || ((bk % 8) as i32 - (wk % 8) as i32).abs() <= 1 && ((bk / 8) as i32 - (wk / 8) as i32).abs() <= 1 {
@@ -565,7 +609,7 @@ impl St {
 }
 
 fn ev_json(task: usize, ev: &Event) -> Value {
-    json!({"task": task, "ev": format!("{:?}", ev.kind), "hash": limbs(ev.hash), "depth": ev.depth, "max": ev.maximizing,
+    json!({"task": task, "ev": format!("{:?}", ev.kind), "hash": limbs(ev.hash), "fp": limbs(ev.fingerprint), "depth": ev.depth, "max": ev.maximizing,
            "alpha": ev.alpha, "beta": ev.beta, "hit": ev.value.is_some(), "value": ev.value.unwrap_or(0),
            "f": sq_of(common::bitboard::bitboard::Bitboard(ev.from)), "t": sq_of(common::bitboard::bitboard::Bitboard(ev.to)), "p": ev.promo})
 }
@@ -662,10 +706,13 @@ pub fn sched(args: &[String]) {
     let mut searches = 0u64;
     let fixed = arg_val(args, "--fen").map(|f| crate::trace::parse_fen(&f));
     for pi in 0..npos {
+        // every second position is a pawn storm (en-passant rights in the tree)
+        FAMILY.with(|f| f.set(if pi % 2 == 1 { 4 } else { 0 }));
         let pos = match &fixed {
             Some(p) => p.clone(),
             None => random_sparse(&mut rng, max_extra),
         };
+        FAMILY.with(|f| f.set(0));
         let mut b0 = pos.setup();
         let t0 = b0.turn();
         let nroot = MoveGenerator::with_cache_capacity(16).generate_moves(&mut b0, t0).len();
